@@ -52,10 +52,20 @@ def seeded_table():
     return "\n".join(rows)
 
 
+def mutation_table():
+    rows = ["| property | mutants sampled (of candidates) | killed (exit 1) | noticed without verdict (exit 2/3) | survived | survivors |", "|---|---|---|---|---|---|"]
+    for f in sorted(glob.glob(os.path.join(ROOT, "mutation", "C*.json"))):
+        d = json.load(open(f))
+        su = d["summary"]
+        surv = [m["desc"].replace("trimesh.", "") for m in d["mutants"] if m["status"] == "survived"]
+        rows.append("| %s | %d (%d) | %d | %d | %d | %s |" % (d["property"], d["sampled"], d["candidates"], su.get("killed", 0), su.get("undecided", 0) + su.get("checker-error", 0), su.get("survived", 0), "<br>".join("`%s`" % x[:110] for x in surv[:12])))
+    return "\n".join(rows)
+
+
 def main():
     p = os.path.join(ROOT, "DESIGN.md")
     s = open(p).read()
-    for name, fn in (("evidence", evidence_table), ("findings", findings_table), ("seeded", seeded_table)):
+    for name, fn in (("evidence", evidence_table), ("findings", findings_table), ("seeded", seeded_table), ("mutation", mutation_table)):
         a, b = "<!-- BEGIN GENERATED:%s -->" % name, "<!-- END GENERATED:%s -->" % name
         if a not in s:
             print("marker missing:", name)
